@@ -16,11 +16,17 @@ type RunOp struct {
 	Sched  simrt.Schedule    `json:"sched"`
 	Faults []proto.Fault     `json:"faults,omitempty"`
 	Fresh  bool              `json:"fresh,omitempty"` // start a fresh worker process for this run
+	// FirstGlobals (with HasFirstGlobals): an earlier Execute on the same executor used these global tags.
+	FirstGlobals    map[string][]string `json:"first_globals,omitempty"`
+	HasFirstGlobals bool                `json:"has_first_globals,omitempty"`
 	// RetrySameExecutor: if Execute fails, the caller calls Execute again on the same executor.
 	RetrySameExecutor bool `json:"retry_same_executor,omitempty"`
 	// GoMaxProcs of the (fresh) worker process: go/packages parses and type-checks in parallel, and
 	// the order in which its goroutines register files decides every token.Pos value.
 	GoMaxProcs int `json:"gomaxprocs,omitempty"`
+	// Cwd: the working directory of the run, relative to the module root (default: the module root).
+	// Entrypoints of such a run are import paths.
+	Cwd string `json:"cwd,omitempty"`
 }
 
 // Op is one step of a history.
@@ -101,6 +107,8 @@ var declPool = []poolEntry{
 	{Text: "\nconst Pct$U = \"100%% of %d items: %s %v 5%\"\n\n// Rate$U is 50% (not %!d).\nfunc Rate$U() string { return `LIKE 'a%'` }\n"},
 	// gofumpt's version-gated rule: legacy octal literals become 0o... when the module's go version allows it
 	{Text: "\nconst Perm$U = 0644\n"},
+	// number literals as a user may have spelled them in a tag or constant: gofmt canonicalises prefix and exponent
+	{Text: "\nconst (\n\tMask$U = 0XFF\n\tMil$U  = 1E6\n\tBits$U = 0B1010\n\tOct$U  = 0O17\n\tHexf$U = 0X1P-2\n)\n"},
 	{Text: "\nvar Comp$U = []int{\n\t1,\n\t2,\n}\n\nfunc After$U() {}\n"},
 	{Text: "\ntype Nt$U struct {\n\tA int `json:\"a\"`\n}\n", DeclType: true},
 	{Text: "\nvar Ref$U ", Ref: "container/list.List"},
